@@ -29,3 +29,5 @@ for sub in ('overlay','overlay_native'):
 json.dump({"Replace":ov},open(os.path.join(out,'overlay-native.json'),'w'))
 PY
 (cd "$V/engine" && go build -tags verif -overlay "$out/overlay-native.json" -o "$out/verifn" ./cmd/verifn) || exit 2
+# race-detector build of the native binary (free-running -race pass)
+(cd "$V/engine" && go build -race -tags verif -overlay "$out/overlay-native.json" -o "$out/verifr" ./cmd/verifn) || exit 2
